@@ -61,6 +61,19 @@ def make_form(rng, i, tier):
             r.cells["save_to"] = "p_" + r.name.replace("-", "_").replace(".", "_")
     if i % 7 == 0:
         f.settings["instance_name"] = "concat('i', 'n')"
+    if i % 6 == 1 and f.choices:
+        # table-list section whose selects carry logic: the generated heading node must not inherit any of it
+        ln = next(iter(f.choices))
+        sk = rng.choice(["group", "group", "repeat"])
+        kids = []
+        for j in range(rng.randint(1, 3)):
+            cells = {"label": f"tl {j}"}
+            for c in rng.sample(["relevant", "required", "constraint", "read_only"], rng.randint(1, 3)):
+                cells[c] = f"'{c}.tl{i}_{j}' != ''"
+            if "constraint" in cells and rng.random() < 0.5:
+                cells["constraint_message"] = f"conmsg.tl{i}_{j}"
+            kids.append(Row("q", f"{rng.choice(['select_one', 'select_multiple'])} {ln}", f"tl{i}_{j}", cells))
+        f.survey.insert(rng.randint(0, len(f.survey)), Row(sk, f"begin {sk}", f"tlsec{i}", {"label": "TL", "appearance": "table-list"}, kids))
     return f
 
 
